@@ -285,6 +285,11 @@ def run(chk, prog, tier):
     unit_ret(chk, prog, only=RECURSIVE_ENTRIES)
     chk.require_count("UNIT-RET", 25)
     fkf_loop(chk, prog)
+    # what the filters do WITH a null accelerometer sample: advance by the gyroscope's first-order step in their own convention (C08's rule, shared): a dropout arm
+    # that freezes the attitude or integrates the wrong way round never "returns to tolerance" after the dropout
+    from props.c08 import dead_reckoning as _dr, dead_reckoning_marg as _drm
+    _dr(chk, prog)
+    _drm(chk, prog)
     recomputed_rule(chk, prog)
     chk.require_count("GUARD-DIV", 20)
     canaries(chk, prog)
